@@ -169,7 +169,7 @@ func (gd *GlobalDescriptor) checkDuplicateAndRegister(f *FileDescriptor, current
 	newFD.Extra = nil
 	newPrevFD := *previous
 	newPrevFD.Extra = nil
-	if reflect.DeepEqual(newFD, newPrevFD) {
+	if descriptorEqual(reflect.ValueOf(newFD), reflect.ValueOf(newPrevFD)) {
 		return
 	}
 	panicString := fmt.Sprintf("thrift reflection: file '%s' is already registered\n"+
@@ -177,6 +177,60 @@ func (gd *GlobalDescriptor) checkDuplicateAndRegister(f *FileDescriptor, current
 		"\tcurrently from '%s'\n"+
 		"To solve this, you need to remove one of the idl above.", f.Filepath, previous.getGoPkgPath(), f.getGoPkgPath())
 	panic(panicString)
+}
+
+// descriptorEqual compares two descriptor trees by content. reflect.DeepEqual cannot be used: the entries of
+// ConstValueDescriptor.ValueMap are keyed by pointer, so two descriptors of the same IDL never compare equal
+// as soon as the IDL has a map-valued constant or default value.
+func descriptorEqual(a, b reflect.Value) bool {
+	if a.Kind() != b.Kind() {
+		return false
+	}
+	switch a.Kind() {
+	case reflect.Ptr, reflect.Interface:
+		if a.IsNil() || b.IsNil() {
+			return a.IsNil() == b.IsNil()
+		}
+		return descriptorEqual(a.Elem(), b.Elem())
+	case reflect.Struct:
+		for i := 0; i < a.NumField(); i++ {
+			if !descriptorEqual(a.Field(i), b.Field(i)) {
+				return false
+			}
+		}
+		return true
+	case reflect.Slice:
+		if a.Len() != b.Len() {
+			return false
+		}
+		for i := 0; i < a.Len(); i++ {
+			if !descriptorEqual(a.Index(i), b.Index(i)) {
+				return false
+			}
+		}
+		return true
+	case reflect.Map:
+		if a.Len() != b.Len() {
+			return false
+		}
+		bKeys := b.MapKeys()
+		used := make([]bool, len(bKeys))
+		for _, ak := range a.MapKeys() {
+			found := false
+			for j, bk := range bKeys {
+				if !used[j] && descriptorEqual(ak, bk) && descriptorEqual(a.MapIndex(ak), b.MapIndex(bk)) {
+					used[j], found = true, true
+					break
+				}
+			}
+			if !found {
+				return false
+			}
+		}
+		return true
+	default:
+		return a.Interface() == b.Interface()
+	}
 }
 
 func BuildFileDescriptor(builder *FileDescriptorBuilder) *FileDescriptor {
